@@ -195,7 +195,7 @@ def task(arg):
 
     sub = SubReporter(seed, tier)
     alpha = alphabet(kind, args, seed)
-    depth = 2 if tier == "quick" else 3
+    depth = 2 if tier == "quick" else 4
     starts = start_states(kind, args, alpha, depth)
     X = SK.make(kind, *args)
     Y = SK.make(kind, *args)
